@@ -115,11 +115,24 @@ func (l *lockedReadCloser) Close() error {
 	return err
 }
 
-func (l *lockedReadCloser) Seek(off int64, whence int) (int64, error) {
-	if sk, ok := l.ReadCloser.(io.Seeker); ok {
-		return sk.Seek(off, whence)
+// lockedReadSeekCloser is used only when the wrapped reader can seek: callers
+// (the Tink middleware) type-assert io.ReadSeeker to choose their read path, so
+// a wrapper must not claim more than the reader it wraps.
+type lockedReadSeekCloser struct {
+	*lockedReadCloser
+	sk io.Seeker
+}
+
+func (l *lockedReadSeekCloser) Seek(off int64, whence int) (int64, error) {
+	return l.sk.Seek(off, whence)
+}
+
+func wrapLocked(rc io.ReadCloser, rel func()) io.ReadCloser {
+	l := &lockedReadCloser{ReadCloser: rc, rel: rel}
+	if sk, ok := rc.(io.Seeker); ok {
+		return &lockedReadSeekCloser{lockedReadCloser: l, sk: sk}
 	}
-	return 0, io.ErrUnexpectedEOF
+	return l
 }
 
 var _ partstore.PartStore = (*PS)(nil)
@@ -185,7 +198,7 @@ func (p *PS) GetPart(ctx context.Context, tx database.Tx, partId partstore.PartI
 		return nil, err
 	}
 	if p.LockModel {
-		rc = &lockedReadCloser{ReadCloser: rc, rel: func() { p.release(partId, true) }}
+		rc = wrapLocked(rc, func() { p.release(partId, true) })
 	}
 	if p.Mutate != nil {
 		b, rerr := io.ReadAll(rc)
@@ -200,7 +213,7 @@ func (p *PS) GetPart(ctx context.Context, tx database.Tx, partId partstore.PartI
 		return io.NopCloser(newBytesReader(nb)), nil
 	}
 	if p.SlowReads && !p.NoYield {
-		return &slowReadCloser{rc: rc, label: "ps[" + p.Name + "].read"}, nil
+		return wrapSlow(rc, "ps["+p.Name+"].read"), nil
 	}
 	return rc, nil
 }
@@ -251,10 +264,19 @@ func (s *slowReadCloser) Read(b []byte) (int, error) {
 }
 func (s *slowReadCloser) Close() error { return s.rc.Close() }
 
-// Seek support is passed through when the inner reader has it.
-func (s *slowReadCloser) Seek(off int64, whence int) (int64, error) {
-	if sk, ok := s.rc.(io.Seeker); ok {
-		return sk.Seek(off, whence)
+type slowReadSeekCloser struct {
+	*slowReadCloser
+	sk io.Seeker
+}
+
+func (s *slowReadSeekCloser) Seek(off int64, whence int) (int64, error) {
+	return s.sk.Seek(off, whence)
+}
+
+func wrapSlow(rc io.ReadCloser, label string) io.ReadCloser {
+	s := &slowReadCloser{rc: rc, label: label}
+	if sk, ok := rc.(io.Seeker); ok {
+		return &slowReadSeekCloser{slowReadCloser: s, sk: sk}
 	}
-	return 0, io.ErrUnexpectedEOF
+	return s
 }
